@@ -35,6 +35,10 @@ class SymRandom(object):
 def _memo_int(kind, xe, mk):
   """one fresh integer per (kind, term) per path: the code and the oracle see the same value"""
   E = _E()
+  if getattr(E, 'cleanup', False):
+    # code of an earlier path still running while its greenlets are killed: a throw-away value, never memoized (the
+    # same term may come up again in the path that is starting)
+    return z3.Int(E.fresh_name(kind + '!'))
   memo = E.__dict__.setdefault('_int_memo', {})
   if E.__dict__.get('_int_memo_path') is not E.trace:
     memo.clear(); E._int_memo_path = E.trace
